@@ -192,3 +192,34 @@ PROPS = {
         profiles=[],
     ),
 }
+
+# additions of the tenth seeding round (appended to the rule texts above)
+ROUND10_COMMON = (" Before one case in six the worker thread first does something unrelated that fails half-way (an unterminated "
+                  "comment glued to a word, an illegal escape inside a text literal, an unmatched quote or parenthesis, a failing "
+                  "evaluation) through one of four entry points: the case judged afterwards must not inherit anything from it "
+                  "(counted as `history perturbations before a case`). One context in three built for a case has a past: its "
+                  "names were bound to values of other types and then cleared (clear / clear_variables); a set_value that such a "
+                  "context rejects is reported as a violation of the property under check.")
+ROUND10 = {
+    "C02": " Also: look-alike leaves (digit-initial words ending in e/E, names containing typographic operator characters such as U+2212 / U+00D7, text constants made of digits and signs) in every one-operator tree over all ordered leaf pairs and in the two-operator trees; tight renderings also put operator against operator where the reference lexer keeps them apart (`2**3`, `a*-b`).",
+    "C03": " Also: back-to-back evaluations on operands that are equal under == but different values (sign of zero, int / float twins, NaNs) for every operator and side; trees precompiled from literals, evaluated, edited in place through children_mut / operator_mut (operands, operator) and evaluated again.",
+    "C04": " Also: histories starting from HashMapContext::default() and from what std::mem::take leaves behind, not only from new().",
+    "C05": "",
+    "C06": " Also: two float literals in one input whose text differs only in the sign of the exponent.",
+    "C07": "",
+    "C08": " Also: the program in parentheses followed by a binary operator that lacks its right operand: all effects of the program happen, then the incomplete application fails (or the program's own failure is reported).",
+    "C09": " Also: the tuple without elements (held by a variable) as argument in three call forms; every builtin and non-builtin name under a second numeric type (Int = i64, Float = f64) before and after its use under the default one, in HashMapContext and both fixed contexts.",
+    "C10": "",
+    "C11": "",
+    "C12": " Also: the `fresh empty context` of the context-free comparison is, every other source, a context whose earlier bindings of other types were cleared.",
+    "C13": " Also: every short (and a quarter of the longer) ill-formed source is evaluated at string level right after a well-formed-looking sibling that differs only in blanks (all blanks removed; blanks doubled).",
+    "C14": " Also: histories on one tree: evaluate, rename the applied functions through iter_function_identifiers_mut (builtin to builtin, builtin to user function, unknown to builtin), evaluate again, compared with a tree precompiled from the renamed source; clone_from into a tree of the same shape whose identifiers have other classes, iterators checked on the refreshed tree.",
+    "C01": "",
+}
+for _k, _v in ROUND10.items():
+    PROPS[_k]["rule"] += _v + ROUND10_COMMON
+PROPS["C15"]["rule"] += (" Also: cold-start processes (32 quick / 320 thorough) whose very first use of the library happens on all threads at "
+                         "once behind a barrier (builtin lookups, unknown functions, parsing, formatting), followed by per-thread clones of "
+                         "one context whose function owns a counter by value: every thread must see the sequential 1, 2, 3, ….")
+PROPS["C16"]["rule"] += (" Also: a blank-variant sibling (blanks doubled also inside text literals, line breaks turned into spaces) "
+                         "deserialized right after its twin must give the tree a thread without any history precompiles for it.")
